@@ -522,6 +522,60 @@ def readI8 : List Nat → Option Int × List Nat
 /-- `CompositeGlyphFlags::all().bits`: reading a flags word is `from_bits_truncate`. -/
 def COMPOSITE_ALL : Nat := 0x1FEF
 
+/-- the anchor arguments of `ComponentIter::next`: `(args_are_xy_values, args_are_words)` select
+i16/i8 offsets or u16/u8 point numbers; `none` when a read fails. -/
+def readAnchor (xy words : Bool) (c2 : List Nat) : Option (Anchor × List Nat) :=
+  match xy, words with
+  | true, true =>
+    (match readI16 c2 with
+     | (some x, c3) => (match readI16 c3 with
+       | (some y, c4) => some (.offset x y, c4)
+       | _ => none)
+     | _ => none)
+  | true, false =>
+    (match readI8 c2 with
+     | (some x, c3) => (match readI8 c3 with
+       | (some y, c4) => some (.offset x y, c4)
+       | _ => none)
+     | _ => none)
+  | false, true =>
+    (match readU16 c2 with
+     | (some b, c3) => (match readU16 c3 with
+       | (some c, c4) => some (.point b c, c4)
+       | _ => none)
+     | _ => none)
+  | false, false =>
+    (match readU8 c2 with
+     | (some b, c3) => (match readU8 c3 with
+       | (some c, c4) => some (.point b c, c4)
+       | _ => none)
+     | _ => none)
+
+/-- the transform of `ComponentIter::next` (default = identity, `F2Dot14::ONE` = 0x4000; a single
+scale sets `yy = xx`); `none` when a read fails. -/
+def readTransform (flags : Nat) (c5 : List Nat) : Option (Transform × List Nat) :=
+  if hasBit flags HAVE_SCALE then
+    (match readI16 c5 with
+     | (some a, c6) => some (⟨a, 0, 0, a⟩, c6)
+     | _ => none)
+  else if hasBit flags HAVE_XY_SCALE then
+    (match readI16 c5 with
+     | (some a, c6) => (match readI16 c6 with
+       | (some d, c7) => some (⟨a, 0, 0, d⟩, c7)
+       | _ => none)
+     | _ => none)
+  else if hasBit flags HAVE_2X2 then
+    (match readI16 c5 with
+     | (some a, c6) => (match readI16 c6 with
+       | (some b, c7) => (match readI16 c7 with
+         | (some c, c8) => (match readI16 c8 with
+           | (some d, c9) => some (⟨a, b, c, d⟩, c9)
+           | _ => none)
+         | _ => none)
+       | _ => none)
+     | _ => none)
+  else some (⟨16384, 0, 0, 16384⟩, c5)
+
 /-- `ComponentIter::next` on a cursor that is still in bounds: `none` when a read fails. -/
 def readComponent (cur : List Nat) : Option (RComponent × List Nat) :=
   match readU16 cur with
@@ -531,60 +585,10 @@ def readComponent (cur : List Nat) : Option (RComponent × List Nat) :=
   match readU16 c1 with
   | (none, _) => none
   | (some glyph, c2) =>
-  let words := hasBit flags ARG_WORDS
-  let xy := hasBit flags ARGS_XY
-  let anchorR : Option (Anchor × List Nat) :=
-    match xy, words with
-    | true, true =>
-      (match readI16 c2 with
-       | (some x, c3) => (match readI16 c3 with
-         | (some y, c4) => some (.offset x y, c4)
-         | _ => none)
-       | _ => none)
-    | true, false =>
-      (match readI8 c2 with
-       | (some x, c3) => (match readI8 c3 with
-         | (some y, c4) => some (.offset x y, c4)
-         | _ => none)
-       | _ => none)
-    | false, true =>
-      (match readU16 c2 with
-       | (some b, c3) => (match readU16 c3 with
-         | (some c, c4) => some (.point b c, c4)
-         | _ => none)
-       | _ => none)
-    | false, false =>
-      (match readU8 c2 with
-       | (some b, c3) => (match readU8 c3 with
-         | (some c, c4) => some (.point b c, c4)
-         | _ => none)
-       | _ => none)
-  match anchorR with
+  match readAnchor (hasBit flags ARGS_XY) (hasBit flags ARG_WORDS) c2 with
   | none => none
   | some (anchor, c5) =>
-  let tr : Option (Transform × List Nat) :=
-    if hasBit flags HAVE_SCALE then
-      (match readI16 c5 with
-       | (some a, c6) => some (⟨a, 0, 0, a⟩, c6)
-       | _ => none)
-    else if hasBit flags HAVE_XY_SCALE then
-      (match readI16 c5 with
-       | (some a, c6) => (match readI16 c6 with
-         | (some d, c7) => some (⟨a, 0, 0, d⟩, c7)
-         | _ => none)
-       | _ => none)
-    else if hasBit flags HAVE_2X2 then
-      (match readI16 c5 with
-       | (some a, c6) => (match readI16 c6 with
-         | (some b, c7) => (match readI16 c7 with
-           | (some c, c8) => (match readI16 c8 with
-             | (some d, c9) => some (⟨a, b, c, d⟩, c9)
-             | _ => none)
-           | _ => none)
-         | _ => none)
-       | _ => none)
-    else some (⟨16384, 0, 0, 16384⟩, c5)
-  match tr with
+  match readTransform flags c5 with
   | none => none
   | some (t, c10) => some (⟨flags, glyph, anchor, t⟩, c10)
 
